@@ -24,4 +24,7 @@ def obligations(tier):
     for dbl in (0, 1):
         obls.append(_c11.conv(dbl, 2, 2, 17, 16, c=1))
         obls.append(_c11.conv(dbl, 3, 2, 2, 1, c=1))
+        for ot in (2, 3):      # a saturating sample of ANOTHER frame/channel inside the 16-sample block must not disturb this channel
+            obls.append(_c11.conv(dbl, ot, 2, 17, 0, c=1, ovf=5))
+            obls.append(_c11.conv(dbl, ot, 2, 17, 15, c=0, ovf=3))
     return obls
